@@ -7,6 +7,8 @@ import (
 	"sync"
 	"sync/atomic"
 	"time"
+
+	"hop.computer/hop/pkg/vt"
 )
 
 // Deadline implements a deadline following the requirements of the net.Conn
@@ -146,8 +148,16 @@ func (d *DeadlineChan[T]) Recv() (b T, err error) {
 		err = io.EOF
 		return
 	}
+	if vt.On {
+		vt.Yield("dc.recv.closed-checked")
+		vt.Gate("dc.recv.closed-checked")
+	}
 
 	errChan := d.deadline.Done()
+	if vt.On {
+		vt.Yield("dc.recv.done-captured")
+		vt.Gate("dc.recv.done-captured")
+	}
 	select {
 	case <-errChan:
 		err = d.deadline.Err()
@@ -169,6 +179,10 @@ func (d *DeadlineChan[T]) Recv() (b T, err error) {
 func (d *DeadlineChan[T]) Send(b T) (err error) {
 	d.m.Lock()
 	defer d.m.Unlock()
+	if vt.On {
+		vt.Yield("dc.send.locked")
+		vt.Gate("dc.send.locked")
+	}
 
 	if d.closed.Load() {
 		return io.EOF
@@ -195,6 +209,10 @@ func (d *DeadlineChan[T]) SetDeadline(t time.Time) error {
 	if d.closed.Load() {
 		return io.EOF
 	}
+	if vt.On {
+		vt.Yield("dc.setdl.closed-checked")
+		vt.Gate("dc.setdl.closed-checked")
+	}
 	return d.deadline.SetDeadline(t)
 }
 
@@ -218,7 +236,15 @@ func (d *DeadlineChan[T]) Close() error {
 		return io.EOF
 	}
 	d.closed.Store(true)
+	if vt.On {
+		vt.Yield("dc.close.flag-set")
+		vt.Gate("dc.close.flag-set")
+	}
 	d.deadline.Cancel(io.EOF)
+	if vt.On {
+		vt.Yield("dc.close.cancelled")
+		vt.Gate("dc.close.cancelled")
+	}
 	return nil
 }
 
